@@ -278,7 +278,13 @@ mod common;
 mod macros;
 pub use self::common::*;
 
+#[cfg_attr(metrics_verif, allow(missing_docs))]
 mod cow;
+#[cfg(metrics_verif)]
+#[doc(hidden)]
+pub mod verif_cow {
+    pub use crate::cow::{Cow, Cowable};
+}
 
 mod handles;
 pub use self::handles::*;
